@@ -35,7 +35,11 @@ class MyList(list):
     pass
 
 
-class MyDict(dict):
+class _Record(dict):
+    pass
+
+
+class MyDict(_Record):          # two subclass levels below dict: resolution has to walk the MRO, not just the direct bases
     pass
 
 
@@ -43,7 +47,11 @@ class MyTuple(tuple):
     pass
 
 
-class MyInt(int):
+class _Level(int):
+    pass
+
+
+class MyInt(_Level):            # likewise (e.g. an enum.IntEnum member is two levels below int)
     pass
 
 
